@@ -486,10 +486,123 @@ def rule_r5(prog, res) -> None:
         res.violation("C16.R5", hdc, hdc.node, "HealPix coordinates are not converted from lon/lat degrees to radian", key_extra="healpix-units")
 
 
+def rule_r6(prog, res) -> None:
+    """(a) the number of attribute rows to draw from: "none" (-1) exactly when neither weights nor redshifts are given,
+    otherwise the common length — folded on the symbolic paths of the size method for the four combinations (given only
+    one of the two, the generator must still draw it); (b) HealPix sub-pixels: a parent pixel p at order o is refined to
+    the finest order M by p * 4**(M - o) + U{0, …, 4**(M - o) - 1} and read back with nside = 2**M in the nested
+    scheme — any other arithmetic puts the points into other pixels than the map selects (decided on the expressions;
+    healpy is not needed, and not available here)."""
+    from .. import symx
+    from ..effects import Unknown, ceval
+    from ..norm import poly
+
+    base, classes = _generator_classes(prog)
+    ds = base.methods.get("get_data_size") or base.methods.get("data_size")
+    n = 0
+    if ds is None:
+        raise AnalysisError("C16.R6: the method that sizes the attribute table (get_data_size) vanished")
+    res.touch(ds)
+    for w_given in (False, True):
+        for z_given in (False, True):
+            def orc(t, w_given=w_given, z_given=z_given):
+                if isinstance(t, ast.Compare) and len(t.ops) == 1 and isinstance(t.comparators[0], ast.Constant) and t.comparators[0].value is None and isinstance(t.left, ast.Attribute):
+                    g = {"weights": w_given, "redshifts": z_given}.get(t.left.attr)
+                    if g is not None:
+                        return (not g) == isinstance(t.ops[0], ast.Is)
+                if isinstance(t, ast.Compare) and len(t.ops) == 1 and isinstance(t.ops[0], (ast.NotEq, ast.Eq)) and all(isinstance(x, ast.Call) and isinstance(x.func, ast.Name) and x.func.id == "len" for x in (t.left, t.comparators[0])):
+                    return isinstance(t.ops[0], ast.Eq)  # both tables have the same length
+                return None
+
+            rets = [p for p in symx.explore(prog, ds, oracle=orc, inline=symx.inline_private_helpers(prog)) if p.outcome == "return" and p.value is not None]
+            n += 1
+            site = res.site(ds, f"weights {'given' if w_given else 'None'}, redshifts {'given' if z_given else 'None'}")
+            if not rets:
+                res.violation("C16.R6", ds, ds.node, f"the size of the attribute table is never returned for weights {'given' if w_given else 'None'} / redshifts {'given' if z_given else 'None'}", key_extra=f"data-size-{w_given}-{z_given}")
+                continue
+            vals = {unparse(symx.strip_wrappers(p.value)) for p in rets}
+            none_marker = all(("-1" in v or "NO_DATA" in v.upper()) and "len(" not in v for v in vals)
+            is_len = all(v.startswith("len(") and (("weights" in v and w_given) or ("redshifts" in v and z_given)) for v in vals)
+            if (not w_given and not z_given and none_marker) or ((w_given or z_given) and is_len):
+                res.ok("C16.R6", site, f"-> {sorted(vals)[0]}")
+            else:
+                res.violation("C16.R6", ds, rets[0].node or ds.node, f"with weights {'given' if w_given else 'None'} and redshifts {'given' if z_given else 'None'} the attribute table is sized {sorted(vals)}: " + ("the column that was given is never drawn, the random catalog silently lacks it" if (w_given or z_given) else "there is nothing to draw from"), key_extra=f"data-size-{w_given}-{z_given}")
+    # (b)
+    hp = next((c for c in classes if "heal" in c.name.lower()), None)
+    if hp is None:
+        raise AnalysisError("C16.R6: the HealPix generator class was not found")
+    dm = next((m for m in hp.methods.values() if any((dotted(c.func) or "").endswith("pix2ang") for c in calls_in(m))), None)
+    if dm is None:
+        raise AnalysisError("C16.R6: the HealPix draw method (pix2ang) was not found")
+    res.touch(dm)
+    fn = dm.node
+    resolver = lambda nm: (lambda vs: vs[0] if len(vs) == 1 else None)([v for v in all_def_values(fn, nm) if v is not None])  # noqa: E731
+    p2a = next(c for c in calls_in(dm) if (dotted(c.func) or "").endswith("pix2ang"))
+    ipix = kwarg(p2a, "ipix") or (p2a.args[1] if len(p2a.args) > 1 else None)
+    nside = kwarg(p2a, "nside") or (p2a.args[0] if p2a.args else None)
+    nest = kwarg(p2a, "nest")
+    probs = []
+    # the refinement: ipix = parent * scale + integers(0, scale)
+    def expand(e, depth=0):
+        import copy as _cp
+
+        class T(ast.NodeTransformer):
+            def visit_Name(self, x):
+                v = resolver(x.id) if depth < 6 else None
+                if isinstance(x.ctx, ast.Load) and v is not None and not (isinstance(v, ast.Call) and (dotted(v.func) or "").split(".")[-1] in ("choice", "nside2order")) and not isinstance(v, ast.Constant):
+                    return expand(v, depth + 1)
+                return x
+
+        return T().visit(_cp.deepcopy(e))
+
+    full = expand(ipix) if ipix is not None else None
+    draws = [y for y in ast.walk(full) if isinstance(y, ast.Call) and isinstance(y.func, ast.Attribute) and y.func.attr == "integers"] if full is not None else []
+    order_scale = None
+    if full is None or len(draws) != 1 or not (isinstance(full, ast.BinOp) and isinstance(full.op, ast.Add)):
+        probs.append(f"the pixel index handed to pix2ang is not <parent> * scale + <draw> ({unparse(full)[:60] if full is not None else None})")
+    else:
+        drw = draws[0]
+        par = full.left if any(y is drw for y in ast.walk(full.right)) else full.right
+        dside = full.right if par is full.left else full.left
+        if dside is not drw:
+            probs.append(f"the sub-pixel draw enters as `{unparse(dside)[:40]}`, not added as it is")
+        lo = kwarg(drw, "low") or (drw.args[0] if drw.args else None)
+        hi = kwarg(drw, "high") or (drw.args[1] if len(drw.args) > 1 else None)
+        if not (isinstance(lo, ast.Constant) and lo.value == 0) or hi is None:
+            probs.append(f"the sub-pixel draw is integers({unparse(lo) if lo is not None else '?'}, {unparse(hi) if hi is not None else '?'}), not integers(0, scale)")
+        if not (isinstance(par, ast.BinOp) and isinstance(par.op, ast.Mult)):
+            probs.append(f"the parent pixel is refined as `{unparse(par)[:50]}`, not multiplied by the number of sub-pixels")
+        elif hi is not None:
+            sc = par.right if any(isinstance(y, ast.Call) and isinstance(y.func, ast.Attribute) and y.func.attr == "choice" for y in ast.walk(par.left)) or isinstance(par.left, ast.Name) else par.left
+            if unparse(sc) != unparse(hi):
+                probs.append(f"the parent pixel is multiplied by `{unparse(sc)[:40]}` but the sub-pixel is drawn below `{unparse(hi)[:40]}`")
+            order_scale = sc
+    if order_scale is not None:
+        # scale = 4 ** (MAX - order)
+        sc = order_scale
+        if not (isinstance(sc, ast.BinOp) and isinstance(sc.op, ast.Pow) and isinstance(sc.left, ast.Constant) and sc.left.value == 4 and isinstance(sc.right, ast.BinOp) and isinstance(sc.right.op, ast.Sub)):
+            probs.append(f"the number of sub-pixels is `{unparse(sc)[:50]}`, not 4 ** (finest order - order of the map)")
+        else:
+            mx = sc.right.left
+            ns = expand(nside) if nside is not None else None
+            if not (isinstance(ns, ast.BinOp) and isinstance(ns.op, ast.Pow) and isinstance(ns.left, ast.Constant) and ns.left.value == 2 and unparse(ns.right) == unparse(mx)):
+                probs.append(f"pix2ang is asked at nside = `{unparse(ns)[:40] if ns is not None else None}`, not 2 ** (the finest order `{unparse(mx)}`)")
+    if not (isinstance(nest, ast.Constant) and nest.value is True):
+        probs.append(f"pix2ang is asked with nest={unparse(nest) if nest is not None else 'False (default)'}: the refinement p * 4**k + r is only valid in the nested scheme")
+    n += 1
+    if probs:
+        res.violation("C16.R6", dm, p2a, "HealPix points are not drawn inside the selected pixels: " + "; ".join(probs), key_extra="healpix-subpixel")
+    else:
+        res.ok("C16.R6", res.site(dm, "sub-pixels"), "parent * 4**(M - order) + integers(0, 4**(M - order)), read back at nside 2**M, nested")
+    if n < 5:
+        raise AnalysisError("C16.R6: fewer than 5 facts folded")
+
+
 RULES = [
     ("C16.R1", rule_r1, QUICK),
     ("C16.R2", rule_r2, QUICK),
     ("C16.R3", rule_r3, QUICK),
     ("C16.R4", rule_r4, QUICK),
     ("C16.R5", rule_r5, QUICK),
+    ("C16.R6", rule_r6, QUICK),
 ]
